@@ -1,4 +1,5 @@
-(** C10 finding: the full-strength statement "every edge rectangle computed by
+(** C10 finding (REPAIRED in /repo by aed5357; kept as the witness for the pre-fix variant):
+    the full-strength statement "every edge rectangle computed by
     RectBounder.AddPoint for unit-length vertices with valid LatLngs is well formed (no NaN
     endpoint), hence RectBound() contains the vertices" is FALSE of the faithful model of the
     unchanged code.  Witness: two normalised points (|p|^2 = 1 + 2^-52), 3e-9 rad from
@@ -19,13 +20,31 @@ Definition wit_b : s2_Point :=
 Definition is_unit (p : s2_Point) : bool :=
   PrimFloat.leb (PrimFloat.abs (PrimFloat.sub (r3_Vector_Norm2 (s2_Point_Vector p)) 1)) (0x1.6849b86a12b9bp-48)%float.
 
-Theorem bounder_nan_refuted : exists a b,
+(** Before /repo aed5357 (model [bounder_run_old], Asin argument 0.5*|a-b|*sin(maxLat)). *)
+Theorem bounder_nan_old_refuted : exists a b,
   is_unit a = true /\ is_unit b = true /\
   s2_LatLng_IsValid (s2_LatLngFromPoint a) = true /\ s2_LatLng_IsValid (s2_LatLngFromPoint b) = true /\
   (* the two vertices are not within the "nearly antipodal" fallback *)
-  edge_tag a b (s2_LatLngFromPoint a) (s2_LatLngFromPoint b) = 2%Z /\
+  edge_tag_old a b (s2_LatLngFromPoint a) (s2_LatLngFromPoint b) = 2%Z /\
   (* the final bound has a NaN upper latitude and therefore contains neither vertex *)
-  go_isnan (r1_Interval_Hi (s2_Rect_Lat (rect_bound (bounder_run [a; b])))) = true /\
-  s2_Rect_ContainsPoint (rect_bound (bounder_run [a; b])) a = false /\
-  s2_Rect_ContainsPoint (rect_bound (bounder_run [a; b])) b = false.
+  go_isnan (r1_Interval_Hi (s2_Rect_Lat (rect_bound (bounder_run_old [a; b])))) = true /\
+  s2_Rect_ContainsPoint (rect_bound (bounder_run_old [a; b])) a = false /\
+  s2_Rect_ContainsPoint (rect_bound (bounder_run_old [a; b])) b = false.
 Proof. exists wit_a, wit_b. vm_compute. repeat split. Qed.
+
+(** After the repair (model [bounder_run], argument min(1, (1+4 eps)*0.5*|a-b|*sin(maxLat))) the
+    same chain has a NaN-free bound reaching the pole and containing both vertices, and so does
+    the nearly antipodal edge through the north pole whose bound used to stop 1.5e-8 rad short. *)
+Definition wit_c : s2_Point :=
+  mk_s2_Point (mk_r3_Vector (-0x1.b94698402c4c9p-03)%float 0%float (-0x1.f3f9466b218f9p-01)%float).
+Definition wit_d : s2_Point :=
+  mk_s2_Point (mk_r3_Vector (0x1.b946983dbefa9p-03)%float 0%float (0x1.f3f9466b43d59p-01)%float).
+Definition north_pole : s2_Point := mk_s2_Point (mk_r3_Vector 0 0 1).
+
+Theorem bounder_witnesses_repaired :
+  (go_isnan (r1_Interval_Hi (s2_Rect_Lat (rect_bound (bounder_run [wit_a; wit_b])))) = false /\
+   s2_Rect_ContainsPoint (rect_bound (bounder_run [wit_a; wit_b])) wit_a = true /\
+   s2_Rect_ContainsPoint (rect_bound (bounder_run [wit_a; wit_b])) wit_b = true) /\
+  (s2_Rect_ContainsPoint (rect_bound (bounder_run_old [wit_c; wit_d])) north_pole = false /\
+   s2_Rect_ContainsPoint (rect_bound (bounder_run [wit_c; wit_d])) north_pole = true).
+Proof. vm_compute. repeat split. Qed.
